@@ -291,7 +291,7 @@ class Explorer:
             if kind == "pidref":
                 return [self.inst.cid_rev.get(txt, "junk")]
             if kind == "doc":
-                return [self.inst.ver_rev.get(hashlib.sha256(txt.encode("utf-8")).hexdigest(), "junk")]
+                return [self.inst.ver_rev.get(hashlib.sha256(raw_bytes).hexdigest(), "junk")]
             if kind == "obj":
                 return [self.inst.content_rev.get(hashlib.sha256(raw_bytes).hexdigest(), "junk")]
             lines = txt.split("\n")
